@@ -3,8 +3,9 @@
 P="$1"; shift
 cd /repo || exit 2
 if ! git diff --quiet; then echo "/repo has uncommitted changes; refusing" >&2; exit 2; fi
-if ! git apply --check "$P" 2>/dev/null; then echo "PATCH DOES NOT APPLY: $P"; exit 3; fi
-git apply "$P"
+if git apply --check "$P" 2>/dev/null; then git apply "$P"
+elif git apply --3way "$P" >/dev/null 2>&1; then git reset -q   # merged over later hook commits; leave it unstaged
+else git checkout -q -- . ; git reset -q; echo "PATCH DOES NOT APPLY: $P"; exit 3; fi
 for id in "$@"; do
   out=$(cd /verif && VERIF_SEED=${VERIF_SEED:-1} ./check "$id" ${TIER:-quick} 2>&1); rc=$?
   echo "[$id rc=$rc] $(echo "$out" | grep -E 'VIOLATION|signature=' | head -2 | cut -c1-400 | tr '\n' ' ')"
